@@ -20,6 +20,7 @@ def parseKV (cfg : Cfg × Bool) (tok : String) : Option (Cfg × Bool) :=
   | ["wstall", v] => some ({ cfg.1 with wstall := parseBool v }, cfg.2)
   | ["think", v] => v.toNat?.map fun x => ({ cfg.1 with think := x }, cfg.2)
   | ["buf", v] => v.toNat?.map fun x => ({ cfg.1 with bufsize := x }, cfg.2)
+  | ["cd", v] => some ({ cfg.1 with closeDelim := parseBool v }, cfg.2)
   | ["co", v] => some (cfg.1, parseBool v)
   | _ => none
 
@@ -32,6 +33,7 @@ def parseEv (s : String) : Option Ev :=
   | "D" => some .dnsAnswer
   | "W" => some .writeResume
   | "X" => some .cancel
+  | "E" => some .peerEof
   | "XL" => some .cancelLate
   | _ =>
     if s.startsWith "K" then (s.drop 1).toNat?.map Ev.connDone
